@@ -410,7 +410,7 @@ func (g *e2eGen) newPlan(id int) *callPlan {
 	tp := g.rc.Tape
 	p := &callPlan{id: id, tag: fmt.Sprintf("t%d", id), outcome: "ok"}
 	g.headers(p)
-	methods := []string{"basePing", "baseNote", "echoItem", "doVoid", "add", "blob", "bigString", "mixed", "URLFor", "shapes", "shapes2", "leafPing", "many", "choose", "color", "stamp", "headersSeen", "fire"}
+	methods := []string{"basePing", "baseNote", "echoItem", "doVoid", "add", "blob", "bigString", "mixed", "URLFor", "Lookup", "shapes", "shapes2", "leafPing", "many", "choose", "color", "stamp", "headersSeen", "fire"}
 	switch g.rc.Prop {
 	case "C16":
 		methods = []string{"basePing", "basePing", "basePing", "basePing", "echoItem", "doVoid", "fire", "baseNote", "leafPing"}
@@ -586,6 +586,15 @@ func (g *e2eGen) newPlan(id int) *callPlan {
 		p.args = []any{genString(tp, "val", 6), int32(tp.Intn("val", 600))}
 		p.outcome = outcome("ok", "ok", "undeclared", "appex")
 		p.ret = "http://" + genString(tp, "val", 8)
+	case "Lookup":
+		// a capitalised method that declares an exception: the names the generator derives for its reply on every path
+		// (result, declared exception, internal error) must be the ones the client expects
+		p.args = []any{genString(tp, "val", 6)}
+		p.outcome = outcome("ok", "ex1", "undeclared", "appex")
+		p.ret = "found:" + genString(tp, "val", 5)
+		if p.outcome == "ex1" {
+			p.ret = &simsvc.NotFound{Key: genString(tp, "val", 4)}
+		}
 	case "many":
 		n := tp.Intn("val", 4)
 		p.args = []any{int32(n)}
